@@ -174,7 +174,7 @@ func runC04(c *Ctx) {
 	{
 		fd := c.funcDecl("postscript", "scanner", "ScanToken")
 		fname := "postscript.(*scanner).ScanToken"
-		parse := c.pkg("postscript").Types.Scope().Lookup("parseNumber")
+		parse := c.pkg("postscript").Types.Scope().Lookup(c.curFnName("postscript", "parseNumber"))
 		var call *ast.CallExpr
 		var path []ast.Node
 		var stack []ast.Node
